@@ -25,8 +25,8 @@ RULE = ("Seeded generation. (a) JDE in [0, 5.4e6]: uniform, civil midnights "
         "form, offsets crossing a month boundary, close Epoch pairs; distinct "
         "by input values.")
 ASSUMPTIONS = [
-    "pairs of Epochs closer than 1e-6 day but not equal are not compared "
-    "(the library documents a 1e-10 equality tolerance)",
+    "on pairs of Epochs closer than 1e-6 day but not equal only <, <=, >, >= "
+    "are judged (== and != are documented to use a 1e-10 tolerance)",
     "day counter oracle for month lengths and boundary instants",
 ]
 EXHAUSTIVE = {"quick": False, "thorough": False}
@@ -376,7 +376,20 @@ def case_order(mon, ja, jb):
     ja_in, jb_in = ja, jb
     ja, jb = a.jde(), b.jde()
     if ja != jb and abs(ja - jb) < 1e-6:
-        return      # ambiguous under the documented 1e-10 equality tolerance
+        # == and != are documented to use a 1e-10 tolerance, so they are not
+        # judged on such a pair; the four order operators are
+        mon.cls("epoch-pair-closer-than-1e-6", (ja, jb), [ja, jb])
+        try:
+            got4 = [a < b, a <= b, a > b, a >= b]
+        except Exception as ex:
+            mon.dev("order.matches-jde", {"a": ja, "b": jb,
+                                          "raised": repr(ex)})
+            return
+        want4 = [ja < jb, ja <= jb, ja > jb, ja >= jb]
+        mon.check("order.matches-jde", got4 == want4,
+                  {"a": ja, "b": jb, "lt_le_gt_ge": got4,
+                   "jde_relations": want4})
+        return
     if ja != jb and abs(ja - jb) < 1e-3:
         mon.cls("close-epoch-pair", (ja, jb), [ja, jb])
     if ja == jb:
@@ -450,7 +463,15 @@ def run(mon, spec):
             jb = j + rng.choice((-1, 1)) * 10.0 ** rng.uniform(-6, 0)
         else:
             jb, _c = gen_jde(rng)
-        if jb != j and abs(jb - j) < 1e-6:
-            jb = j + 1e-6 * 1.5
+        if rng.random() < 0.15:
+            # ulp neighbours, in every binade (below JDE 2**19 two floats can
+            # be closer than the documented 1e-10 equality tolerance)
+            jx = float(rng.randrange(1, 2 ** rng.randrange(3, 23))) + \
+                rng.random()
+            j2 = jx
+            for _k in range(rng.randrange(1, 4)):
+                j2 = math.nextafter(j2, rng.choice((0.0, 1e9)))
+            mon.begin("order", [jx, j2])
+            case_order(mon, jx, j2)
         mon.begin("order", [j, jb])
         case_order(mon, j, jb)
